@@ -112,6 +112,14 @@ impl Select for VirtualSystem {
                     return Poll::Pending;
                 }
 
+                #[cfg(feature = "verif-hooks")]
+                if timeout != Some(Duration::ZERO)
+                    && proc.state() == ProcessState::Running
+                    && let Some(poll) = super::sim_hook::select_gate(this.process_id, context)
+                {
+                    return poll;
+                }
+
                 // Check for delivered signals
                 if proc.caught_signals.len() != old_caught_signals {
                     return Poll::Ready(Err(Errno::EINTR));
